@@ -6,6 +6,7 @@ import (
 	"fmt"
 	"os"
 	"path/filepath"
+	"sort"
 	"sync"
 
 	"verifharness/sim"
@@ -75,29 +76,43 @@ func runC07(args []string) error {
 	// followed by the requests that ran in that variant
 	// one world event per sandbox variant, followed by the requests that ran in that variant.  Variants: occ = are the
 	// places a leaving path would land on occupied by canaries; ur = is the requester confined to its own file root
-	for _, v := range [][2]int{{0, 0}, {1, 0}, {0, 1}} {
+	type variant struct{ occ, ur, sp int }
+	vof := func(q map[string]any) variant { return variant{intOf(q["occ"]), intOf(q["ur"]), intOf(q["sp"])} }
+	var order []variant
+	seenV := map[variant]bool{}
+	for i := range reqs {
+		v := vof(reqs[i])
+		if v.ur == 1 && v.occ != 0 {
+			return fmt.Errorf("request %d: variant occ=%d ur=%d is not defined", i+1, v.occ, v.ur)
+		}
+		if !seenV[v] {
+			seenV[v] = true
+			order = append(order, v)
+		}
+	}
+	sort.Slice(order, func(i, j int) bool {
+		a, b := order[i], order[j]
+		return a.sp*4+a.ur*2+a.occ < b.sp*4+b.ur*2+b.occ
+	})
+	// (sp = how the client's root is spelled in the configuration: canonical, trailing slash, double slash, dot segment)
+	for _, v := range order {
 		first := true
 		for i, r := range results {
-			if intOf(reqs[i]["occ"]) != v[0] || intOf(reqs[i]["ur"]) != v[1] {
+			if vof(reqs[i]) != v {
 				continue
 			}
 			if first {
 				first = false
 				rootName := "root"
-				if v[1] == 1 {
+				if v.ur == 1 {
 					rootName = "userroot"
 				}
-				lg.Emit(map[string]any{"op": "world", "run": 0, "occ": v[0], "ur": v[1], "mode": "c07", "ignore": "default", "snap": r["_snap0"],
+				lg.Emit(map[string]any{"op": "world", "run": 0, "occ": v.occ, "ur": v.ur, "sp": v.sp, "mode": "c07", "ignore": "default", "snap": r["_snap0"],
 					"rootp": compsJSON(toB([]string{"l1", "l2", "l3", "W", rootName})), "usersp": compsJSON(toB([]string{"l1", "l2", "l3", "W", "config", "Users"}))})
 			}
 			delete(r, "_snap0")
 			r["run"] = i + 1
 			lg.Emit(r)
-		}
-	}
-	for i := range reqs {
-		if o, u := intOf(reqs[i]["occ"]), intOf(reqs[i]["ur"]); u == 1 && o != 0 {
-			return fmt.Errorf("request %d: variant occ=%d ur=%d is not defined", i+1, o, u)
 		}
 	}
 	return lg.Close()
@@ -159,11 +174,13 @@ func runC07Request(world map[string]any, rq map[string]any) (map[string]any, err
 	acquireWork()
 	defer releaseWork()
 	ur := intOf(rq["ur"])
+	sp := intOf(rq["sp"])
+	variant := occ + 2*ur + 4*sp
 	// a sandbox (and its logged-in client) that a previous request of the same variant left exactly as it was built is
 	// used again; otherwise a fresh one is built
-	ls := takeLive(occ + 2*ur)
+	ls := takeLive(variant)
 	if ls == nil {
-		sb, err := newSandboxUR(world, true, ur == 1)
+		sb, err := newSandboxUR(world, true, ur == 1, sp)
 		if err != nil {
 			return nil, err
 		}
@@ -190,7 +207,7 @@ func runC07Request(world map[string]any, rq map[string]any) (map[string]any, err
 	reusable := false
 	defer func() {
 		if reusable {
-			putLive(occ+2*ur, ls)
+			putLive(variant, ls)
 		} else {
 			sb.close()
 		}
@@ -213,11 +230,11 @@ func runC07Request(world map[string]any, rq map[string]any) (map[string]any, err
 	}
 	// every sandbox of a variant must start identical (the log carries one world event per variant)
 	snap0Mu.Lock()
-	if k0, ok := snap0Key[occ+2*ur]; !ok {
-		snap0Key[occ+2*ur] = keyStr
+	if k0, ok := snap0Key[variant]; !ok {
+		snap0Key[variant] = keyStr
 	} else if k0 != keyStr {
 		snap0Mu.Unlock()
-		return nil, fmt.Errorf("sandboxes of variant occ=%d ur=%d differ initially", occ, ur)
+		return nil, fmt.Errorf("sandboxes of variant occ=%d ur=%d sp=%d differ initially", occ, ur, sp)
 	}
 	snap0Mu.Unlock()
 	ev["_snap0"] = snapJSON
